@@ -451,7 +451,12 @@ impl MerkleTree {
                     (
                         Some(DataHash {
                             index: block.index,
-                            nodes: p.nodes.expect("nodes need to be present"),
+                            nodes: p.nodes.ok_or_else(|| HypercoreError::InvalidOperation {
+                                context: format!(
+                                    "Block {} is outside of the requested upgrade",
+                                    block.index
+                                ),
+                            })?,
                         }),
                         None,
                     )
@@ -460,7 +465,12 @@ impl MerkleTree {
                         None,
                         Some(DataHash {
                             index: hash.index,
-                            nodes: p.nodes.expect("nodes need to be set"),
+                            nodes: p.nodes.ok_or_else(|| HypercoreError::InvalidOperation {
+                                context: format!(
+                                    "Hash {} is outside of the requested upgrade",
+                                    hash.index
+                                ),
+                            })?,
                         }),
                     )
                 } else {
